@@ -71,14 +71,17 @@ def plan(tier, seed, kf_ids):
                 code = "#[kani::proof]\npub fn %s() { nonfinite::<%s, %s, %d>(); }" % (name, t, ft, form)
                 jobs.append(Job(name, code, "every non-finite %s into %s, %s" % (ft, al, what), timeout=600,
                                 inst="%s->%s" % (ft, al), bounds="all NaN/inf bit patterns"))
-            for form, pat in ((0, "^(NaN|infinite) @"), (1, "^(NaN|infinite) @"), (4, "^(NaN|infinite) @"), (5, "^NaN @")):
+            # any panic raised by the library counts as "rejected" (the wording of the message is not part of the property);
+            # the only violation is reaching the harness's own assertion after the call
+            lib_panic = r"^(?!MUSTPANIC).* @ (?!src/)"
+            for form, pat in ((0, lib_panic), (1, lib_panic), (4, lib_panic), (5, lib_panic)):
                 nm = {0: "ove", 1: "wra", 4: "pla", 5: "satnan"}[form]
                 name = "c05_nonfin_%s_%s_%s" % (c.tag(s, w, f), ft, nm)
                 code = "#[kani::proof]\npub fn %s() { nonfinite::<%s, %s, %d>(); }" % (name, t, ft, form)
                 jobs.append(Job(name, code, "every non-finite %s (NaN only for saturating) into %s via the %s form panics: "
                                 "the call never returns a number" % (ft, al, nm), timeout=600,
                                 inst="%s->%s" % (ft, al), bounds="all NaN/inf bit patterns",
-                                allow=[r"^NaN @", r"^infinite @", r"^This is a placeholder message", r"overflows"],
+                                allow=[lib_panic],
                                 expect_fail=[pat]))
     return {
         "feature": "c05",
